@@ -169,6 +169,11 @@ ssize_t _GD_Bzip2Read(struct gd_raw_file_ *restrict file, void *restrict data,
       ptr->end = n;
     } else {
       file->error = ptr->bzerror;
+      /* a failing BZ2_bzRead may already have overwritten the buffer: forget
+       * the window and leave file->pos on the decoder's position */
+      ptr->base += ptr->end;
+      ptr->pos = ptr->end = 0;
+      file->pos = ptr->base / GD_SIZE(data_type);
       dreturn("%i", -1);
       return -1;
     }
@@ -290,6 +295,11 @@ off64_t _GD_Bzip2Seek(struct gd_raw_file_* file, off64_t offset,
           ptr->stream_end = 1;
       } else {
         file->error = ptr->bzerror;
+        /* a failing BZ2_bzRead may already have overwritten the buffer: forget
+         * the window and leave file->pos on the decoder's position */
+        ptr->base += ptr->end;
+        ptr->pos = ptr->end = 0;
+        file->pos = ptr->base / GD_SIZE(data_type);
         dreturn("%i", -1);
         return -1;
       }
